@@ -137,6 +137,7 @@ type X struct {
 	rootRets []retPoint
 	atHits   map[*Clause]int
 	also     []string
+	crossCheck bool
 	stale    []string // contract clauses that could not be evaluated against the current code
 }
 
